@@ -411,7 +411,10 @@ Section Close.
     j_all_done st' = true /\ 1 <= j_baseA st' /\ 1 <= j_baseB st'.
   Proof.
     intros st Hr Ht. cbn zeta.
-    assert (Hsplit : j_run W j_drain st = j_run W [EvX; EvX; EvX] (j_run W [EvY; EvY; EvY] (j_run W [EvX; EvX; EvX] st))) by reflexivity.
+    assert (Hsplit : j_run W j_drain st = j_run W [EvX; EvX; EvX] (j_run W [EvY; EvY; EvY] (j_run W [EvX; EvX; EvX] st))).
+    { unfold j_run, j_drain.
+      change [EvX; EvX; EvX; EvY; EvY; EvY; EvX; EvX; EvX] with ([EvX; EvX; EvX] ++ [EvY; EvY; EvY] ++ [EvX; EvX; EvX]).
+      rewrite !fold_left_app. reflexivity. }
     rewrite Hsplit. clear Hsplit.
     pose proof (reachable_inv st Hr) as Hinv.
     destruct (x_burst W st Hall Hinv) as (I1' & Y1 & PA1 & PB1 & A1 & B1 & D1 & G1). cbn zeta in *.
